@@ -278,6 +278,46 @@ let parse_tree (s : string) : tree =
   | ([t], []) -> t
   | _ -> failwith "tree shape"
 
+(* ---------- printing a model tree in the format of the Go dumper (inverse of parse_tree) ---------- *)
+let seg_s (s : seg) = Printf.sprintf "%d:%d:%d:%s" (int_of_z s.s_start) (int_of_z s.s_stop) (int_of_z s.s_pad) (s_of_bool s.s_fnl)
+let opt_hex_s = function None -> "n" | Some b -> "h" ^ hex_of_bytes b
+let print_kind (k : kind) : string * string =
+  let zi z = string_of_int (int_of_z z) in
+  match k with
+  | KDocument -> "Document", "-" | KTextBlock -> "TextBlock", "-" | KParagraph -> "Paragraph", "-"
+  | KHeading l -> "Heading", zi l | KThematicBreak -> "ThematicBreak", "-" | KBlockquote -> "Blockquote", "-"
+  | KCodeBlock -> "CodeBlock", "-" | KFencedCodeBlock l -> "FencedCodeBlock", opt_hex_s l
+  | KHTMLBlock c -> "HTMLBlock", (match c with None -> "n" | Some s -> seg_s s)
+  | KList (o, st) -> "List", s_of_bool o ^ ":" ^ zi st | KListItem -> "ListItem", "-"
+  | KText (s, soft, hard, raw) -> "Text", seg_s s ^ ":" ^ s_of_bool soft ^ ":" ^ s_of_bool hard ^ ":" ^ s_of_bool raw
+  | KString (v, raw, code) -> "String", hex_of_bytes v ^ ":" ^ s_of_bool raw ^ ":" ^ s_of_bool code
+  | KCodeSpan -> "CodeSpan", "-" | KEmphasis l -> "Emphasis", zi l
+  | KLink (d, t) -> "Link", hex_of_bytes d ^ ":" ^ opt_hex_s t
+  | KImage (d, t) -> "Image", hex_of_bytes d ^ ":" ^ opt_hex_s t
+  | KAutoLink (e, u, l) -> "AutoLink", s_of_bool e ^ ":" ^ hex_of_bytes u ^ ":" ^ hex_of_bytes l
+  | KRawHTML segs -> "RawHTML", (if segs = [] then "-" else String.concat "," (List.map seg_s segs))
+  | _ -> "Other", "-"
+let print_tree (t : tree) : string =
+  let b = Buffer.create 256 in
+  let first = ref true in
+  let rec go depth (Node (k, lines, _, kids)) =
+    if not !first then Buffer.add_char b '~';
+    first := false;
+    let (name, f) = print_kind k in
+    let is_inline = (match k with KText _ | KString _ | KCodeSpan | KEmphasis _ | KLink _ | KImage _ | KAutoLink _ | KRawHTML _ -> true | _ -> false) in
+    Buffer.add_string b (Printf.sprintf "%d|%s|%s|%s|N" depth name f
+      (if is_inline || lines = [] then "-" else String.concat "," (List.map seg_s lines)));
+    List.iter (go (depth + 1)) kids in
+  go 0 t; Buffer.contents b
+let print_refs (refs : (bytes * (bytes * bytes option)) list) : string =
+  let l = List.map (fun (k, (d, t)) -> hex_of_bytes k ^ "=" ^ hex_of_bytes d ^ ":" ^ opt_hex_s t) refs in
+  String.concat ";" (List.sort compare l)
+
+let caps_str (groups : int) (c : (z * z) option list) : string =
+  let arr = Array.make (2 * (groups + 1)) (-1) in
+  List.iteri (fun i v -> if i <= groups then (match v with Some (a, b) -> arr.(2*i) <- int_of_z a; arr.(2*i+1) <- int_of_z b | None -> ())) c;
+  String.concat "," (Array.to_list (Array.map string_of_int arr))
+
 let parse_rcfg (s : string) : rcfg =
   match String.split_on_char ',' s with
   | [u; x; h; t] -> { unsafe = (u = "1"); xhtml = (x = "1"); hardwraps = (h = "1"); talign = z_of_int (int_of_string t) }
@@ -533,6 +573,15 @@ let eval (fn : string) (args : string list) : string =
   | "Prio", [role; d] -> prio_case role d
   | "IdsProg", [ops] -> ids_case ops
   | "Bufio", [size; limit; ops] -> bufio_case (int_of_string size) (int_of_string limit) ops
+  | "Regex", [name; inp] ->
+    (match regexFind (bytes_of_hex name) (bytes_of_hex inp) with
+     | None -> "unknown-regex"
+     | Some (None, _) -> "no"
+     | Some (Some c, g) -> caps_str (int_of_nat g) c)
+  | "ParseBlocks", [src] ->
+    (match parseBlocksTree (bytes_of_hex src) with
+     | Ok (t, refs) -> print_tree t ^ "#" ^ print_refs refs
+     | Panic -> "PANIC" | OutOfFuel -> "FUEL")
   | "ReaderProg", [src; script] ->
     let b = bytes_of_hex src in
     run_reader_prog plain_ops (new_reader b) (List.length b) script
